@@ -22,6 +22,9 @@ list (as found: not on digit-less strings such as "-", `ingest_stats_old_counter
 `Reduce` agrees with `ReduceMinMax` (as found: order dependent, `rb_minmax_order_old_counterexample`).
 -/
 import SigModel.Gen.TimeBucket
+import SigModel.Gen.BinAlign
+import SigModel.Model.BinAlign
+import SigModel.Lemmas.C04B
 import SigModel.Spec.Logs
 import SigModel.Lemmas.C04Se
 import SigModel.Lemmas.C04Tc
@@ -228,6 +231,157 @@ open SigModel.Spec in
 theorem spec_count_additive (xs ys : List Event) :
     evalAgg (xs ++ ys) .count = .num ((xs.length + ys.length : Nat)) := by
   simp [evalAgg]
+
+/-! ## bin span=<n><unit> aligntime=T on the timestamp field (new pipeline)
+
+Kernel REGENERATED on every run from pkg/segment/query/processor/bincommand.go `getTimeBucketWithAlign`
+(SigModel/Gen/BinAlign.lean; float64 steps read as exact rationals, time.Time as nanoseconds — SigModel/Model/TimePrims.lean);
+specification SigModel/Model/BinAlign.lean (`bucket`: floor semantics on the grid T + k·span); the real function and
+performBinWithSpanTime are compared with it by suite `binalign` (timestamps below / at / above the align time). -/
+section BinAlign
+open SigModel.BinAlign SigModel.TimePrims SigModel.Lemmas.C04B
+
+theorem bin_align_kernel_eq_model (ts T n m : Int)
+    (hn : 0 < n) (hm : 0 < m) (hspan : n * m * 1000000 < 9223372036854775808)
+    (hT0 : 0 ≤ T) (hT : T < 4611686018427387904) (hts0 : -4611686018427387904 < ts) (hts : ts < 4611686018427387904) :
+    getTimeBucketWithAlign (timeOfUnixMilli ts) (m * 1000000) ((n : Int) : Rat) false T = bucket (n * m) T ts := by
+  have hnm : 0 < n * m := Int.mul_pos hn hm
+  have hn1 : n ≤ n * m := by
+    have := Int.mul_le_mul_of_nonneg_left (show 1 ≤ m by omega) (show 0 ≤ n by omega); omega
+  have e0 : wrapS64 n = n := wrapS64_id n (by omega) (by omega)
+  have e1 : n * (m * 1000000) = n * m * 1000000 := by rw [Int.mul_assoc]
+  have e2 : wrapS64 (n * m * 1000000) = n * m * 1000000 := wrapS64_id _ (by omega) (by omega)
+  have e3 : Int.tdiv (n * m * 1000000) 1000000 = n * m := by
+    rw [Int.tdiv_eq_ediv_of_nonneg (by omega)]; omega
+  have e4 : wrapS64 (n * m) = n * m := wrapS64_id _ (by omega) (by omega)
+  have hmul : (ts - T) / (n * m) * (n * m) ≤ ts - T := Int.ediv_mul_le _ (by omega)
+  have hlt : ts - T < ((ts - T) / (n * m) + 1) * (n * m) := Int.lt_ediv_add_one_mul_self _ hnm
+  have hlt' : ts - T < (ts - T) / (n * m) * (n * m) + n * m := by
+    rw [Int.add_mul, Int.one_mul] at hlt; exact hlt
+  have eq : ((T : Int) : Rat) + (((Rat.floor ((((ts : Int) : Rat) - ((T : Int) : Rat)) / (((n * m : Int)) : Rat)) : Int) : Rat) * ((n * m : Int) : Rat))
+      = ((T + (ts - T) / (n * m) * (n * m) : Int) : Rat) := by
+    rw [← Rat.intCast_sub, ratFloor_div _ _ hnm, ← Rat.intCast_mul, ← Rat.intCast_add]
+  unfold getTimeBucketWithAlign
+  simp only [Bool.false_eq_true, if_false, ratTrunc_intCast, timeUnixMilli_ofMilli, e0, e1, e2, e3, e4, eq]
+  have e5 : wrapS64 (T + (ts - T) / (n * m) * (n * m)) = T + (ts - T) / (n * m) * (n * m) := wrapS64_id _ (by omega) (by omega)
+  rw [e5]
+  unfold bucket gridPoint
+  by_cases h : T + (ts - T) / (n * m) * (n * m) < 0 <;> simp [h]
+
+/-- the model bucket: containment, grid alignment (unless clamped to 0), and uniqueness of the cell -/
+theorem bin_align_model_partition (span T ts : Int) (hs : 0 < span) (hts : 0 ≤ ts) :
+    let b := bucket span T ts
+    b ≤ ts ∧ ts < b + span ∧ ((b - T) % span = 0 ∨ (b = 0 ∧ gridPoint span T ts < 0)) ∧
+    (∀ g : Int, (g - T) % span = 0 → g ≤ ts → ts < g + span → b = if g < 0 then 0 else g) := by
+  have hmul : (ts - T) / span * span ≤ ts - T := Int.ediv_mul_le _ (by omega)
+  have hlt : ts - T < ((ts - T) / span + 1) * span := Int.lt_ediv_add_one_mul_self _ hs
+  rw [Int.add_mul, Int.one_mul] at hlt
+  have hg : (gridPoint span T ts - T) % span = 0 := by
+    unfold gridPoint
+    have : T + (ts - T) / span * span - T = (ts - T) / span * span := by omega
+    rw [this]; exact Int.mul_emod_left _ _
+  have huniq : ∀ g : Int, (g - T) % span = 0 → g ≤ ts → ts < g + span → g = gridPoint span T ts := by
+    intro g h1 h2 h3
+    unfold gridPoint
+    have hk : (g - T) / span * span = g - T := Int.ediv_mul_cancel (Int.dvd_of_emod_eq_zero h1)
+    have hq : (ts - T) / span = (g - T) / span := by
+      rcases Int.lt_trichotomy ((ts - T) / span) ((g - T) / span) with h | h | h
+      · have := Int.mul_le_mul_of_nonneg_right (show (ts - T) / span + 1 ≤ (g - T) / span by omega) (show 0 ≤ span by omega)
+        rw [Int.add_mul, Int.one_mul] at this; omega
+      · exact h
+      · have := Int.mul_le_mul_of_nonneg_right (show (g - T) / span + 1 ≤ (ts - T) / span by omega) (show 0 ≤ span by omega)
+        rw [Int.add_mul, Int.one_mul] at this; omega
+    rw [hq, hk]; omega
+  have hle : gridPoint span T ts ≤ ts := by unfold gridPoint; omega
+  have hub : ts < gridPoint span T ts + span := by unfold gridPoint; omega
+  intro b
+  show bucket span T ts ≤ ts ∧ ts < bucket span T ts + span ∧ ((bucket span T ts - T) % span = 0 ∨ (bucket span T ts = 0 ∧ gridPoint span T ts < 0)) ∧
+    (∀ g : Int, (g - T) % span = 0 → g ≤ ts → ts < g + span → bucket span T ts = if g < 0 then 0 else g)
+  unfold bucket
+  by_cases hneg : gridPoint span T ts < 0
+  · simp only [hneg, if_true]
+    refine ⟨hts, by omega, Or.inr (by simp), ?_⟩
+    intro g h1 h2 h3
+    rw [huniq g h1 h2 h3]; simp [hneg]
+  · simp only [hneg, if_false]
+    refine ⟨hle, hub, Or.inl hg, ?_⟩
+    intro g h1 h2 h3
+    rw [huniq g h1 h2 h3]; simp [hneg]
+
+/-- C04 (bin with align time; kernel REGENERATED from bincommand.go getTimeBucketWithAlign on every run): for a span of n units
+of m milliseconds (time scales ms … h of performBinWithSpanTime: durationScale = m·10⁶ ns), every align time T and every
+timestamp ts — BEFORE, AT or AFTER the align time — the bucket b the code computes satisfies b ≤ ts < b + span, lies on the grid
+T + k·span (k any integer: floor semantics below T; the one cell whose left edge would be negative is reported as 0), and is the
+only such cell: the buckets partition the time line, each event is counted in the bucket whose span contains its timestamp.
+Guards: magnitudes below 2^62 (so that the int64 casts do not wrap; float64 steps are read exactly, see trusted base). -/
+theorem bin_align_partition (ts T n m : Int)
+    (hn : 0 < n) (hm : 0 < m) (hspan : n * m * 1000000 < 9223372036854775808)
+    (hT0 : 0 ≤ T) (hT : T < 4611686018427387904) (hts0 : 0 ≤ ts) (hts : ts < 4611686018427387904) :
+    let span := n * m
+    let b := getTimeBucketWithAlign (timeOfUnixMilli ts) (m * 1000000) ((n : Int) : Rat) false T
+    b ≤ ts ∧ ts < b + span ∧ ((b - T) % span = 0 ∨ (b = 0 ∧ gridPoint span T ts < 0)) ∧
+    (∀ g : Int, (g - T) % span = 0 → g ≤ ts → ts < g + span → b = if g < 0 then 0 else g) := by
+  intro span b
+  have hb : b = bucket span T ts := bin_align_kernel_eq_model ts T n m hn hm hspan hT0 hT (by omega) hts
+  rw [hb]
+  exact bin_align_model_partition span T ts (Int.mul_pos hn hm) hts0
+
+/-- two timestamps get the same bucket iff they lie in the same grid cell (same floor quotient) — or both in the clamped cell -/
+theorem bin_align_same_bucket_close (span T t1 t2 : Int) (hs : 0 < span) (h1 : 0 ≤ t1) (h2 : 0 ≤ t2)
+    (he : bucket span T t1 = bucket span T t2) : t1 - t2 < span ∧ t2 - t1 < span := by
+  have a := bin_align_model_partition span T t1 hs h1
+  have b := bin_align_model_partition span T t2 hs h2
+  simp only at a b
+  omega
+
+/-- the integer-division variant (Go's `/` on int64 rounds toward zero) does NOT satisfy the partition: a timestamp before
+the align time is put into the NEXT cell, whose span does not contain it -/
+theorem bin_align_trunc_counterexample :
+    ¬ (∀ span T ts : Int, 0 < span → 0 ≤ ts → bucketTrunc span T ts ≤ ts) := by
+  intro h
+  have := h 10 100 95 (by decide) (by decide)
+  revert this; decide
+
+/-- the guards of bin_align_partition are satisfiable with a timestamp before the align time, and the kernel floors there -/
+example : getTimeBucketWithAlign (timeOfUnixMilli 1720311600000) (3600000 * 1000000) ((1 : Int) : Rat) false 1720312800000 = 1720309200000 := by
+  rw [bin_align_kernel_eq_model _ _ 1 3600000 (by decide) (by decide) (by decide) (by decide) (by decide) (by decide) (by decide)]
+  decide
+
+/-- without an align time the regenerated kernel (time.Truncate: multiples of the span counted from Go's zero time) equals the
+model `bucketNoAlign`, and the bucket contains the timestamp: b ≤ ts < b + span -/
+theorem bin_noalign_kernel_eq_model (ts T n m : Int)
+    (hn : 0 < n) (hm : 0 < m) (hspan : n * m * 1000000 < 9223372036854775808)
+    (hts0 : 0 ≤ ts) (hts : ts < 4611686018427387904) :
+    let b := getTimeBucketWithAlign (timeOfUnixMilli ts) (m * 1000000) ((n : Int) : Rat) true T
+    b = bucketNoAlign (n * m) ts ∧ b ≤ ts ∧ ts < b + n * m := by
+  have hnm : 0 < n * m := Int.mul_pos hn hm
+  have hn1 : n ≤ n * m := by
+    have := Int.mul_le_mul_of_nonneg_left (show 1 ≤ m by omega) (show 0 ≤ n by omega); omega
+  have e0 : wrapS64 n = n := wrapS64_id n (by omega) (by omega)
+  have e1 : n * (m * 1000000) = n * m * 1000000 := by rw [Int.mul_assoc]
+  have e2 : wrapS64 (n * m * 1000000) = n * m * 1000000 := wrapS64_id _ (by omega) (by omega)
+  have hr0 : 0 ≤ (ts + zeroOffsetMs) % (n * m) := Int.emod_nonneg _ (by omega)
+  have hr1 : (ts + zeroOffsetMs) % (n * m) < n * m := Int.emod_lt_of_pos _ hnm
+  have hz : zeroOffsetNs = zeroOffsetMs * 1000000 := by decide
+  have et : timeTruncate (timeOfUnixMilli ts) (n * m * 1000000) = (ts - (ts + zeroOffsetMs) % (n * m)) * 1000000 := by
+    unfold timeTruncate timeOfUnixMilli
+    have hd : ¬ (n * m * 1000000 ≤ 0) := by omega
+    rw [if_neg hd, hz, ← Int.add_mul, Int.mul_comm (ts + zeroOffsetMs) 1000000, Int.mul_comm (n * m) 1000000,
+      Int.mul_emod_mul_of_pos _ _ (by decide : (0:Int) < 1000000), Int.sub_mul]
+    omega
+  have hzv : zeroOffsetMs = 62135596800000 := rfl
+  intro b
+  have hb : b = bucketNoAlign (n * m) ts := by
+    show getTimeBucketWithAlign (timeOfUnixMilli ts) (m * 1000000) ((n : Int) : Rat) true T = _
+    unfold getTimeBucketWithAlign
+    simp only [if_true, ratTrunc_intCast, e0, e1, e2, et]
+    have : timeUnixMilli ((ts - (ts + zeroOffsetMs) % (n * m)) * 1000000) = ts - (ts + zeroOffsetMs) % (n * m) := by
+      unfold timeUnixMilli; omega
+    rw [this, wrapS64_id _ (by omega) (by omega)]
+    rfl
+  refine ⟨hb, ?_, ?_⟩ <;> rw [hb] <;> unfold bucketNoAlign <;> omega
+
+end BinAlign
 
 end SigModel.Props.C04
 
